@@ -271,9 +271,12 @@ def stage_probe(ctx, stats):
             enc_ = rng.choice([None, 'utf-8'])
             _, args = rand_roundtrip(rng)
             args = [a.replace('\x00', '') for a in args]
-            mode = rng.choice(['cmdline', 'args', 'popen'])
+            mode = rng.choice(['cmdline', 'args', 'popen', 'popen_str', 'run'])
+            if mode == 'popen_str':
+                # PopenSpawn given a command line splits it by the shell's rules: a bare '#' belongs to its word
+                args = [a for a in args if a] + [rng.choice(['issue#12', 'x#y#z', 'a#', 'issue#12'])]
             # a preexec_fn of the caller's: it must run (the child reports its umask) and must not displace anything else
-            pre = (mode != 'popen' and rng.random() < 0.5)
+            pre = (mode in ('cmdline', 'args') and rng.random() < 0.5)
             kw_pre = dict(preexec_fn=(lambda: os.umask(0o057))) if pre else {}
             info = None
             launch_exc = None
@@ -287,13 +290,27 @@ def stage_probe(ctx, stats):
                     prog = common.PY if rng.random() < 0.5 else rng.choice(odd_paths)
                     p = pexpect.spawn(prog, [PROBE] + args, cwd=cwd, env=env, dimensions=dims, echo=echo, ignore_sighup=ign,
                                       encoding=enc_, timeout=20, **kw_pre)
+                elif mode == 'popen_str':
+                    import shlex
+                    # (a '#' inside a word needs no quoting by the shell's rules and gets none here)
+                    p = popen_spawn.PopenSpawn(' '.join((x if re.fullmatch(r'[a-z0-9#]+', x) else shlex.quote(x)) for x in [common.PY, PROBE] + args),
+                                               cwd=cwd, env=env, encoding=enc_, timeout=20)
+                elif mode == 'run':
+                    # run() / runu() start the child themselves: cwd, env and the rest must reach it, with the explicit timeout and with -1
+                    import pexpect.run as _  # noqa
+                    cmd = common.PY + ' ' + PROBE + ' ' + ' '.join(quote(a, rng.choice(['bs'] + (['sq'] if "'" not in a else []))) for a in args)
+                    text = pexpect.run(cmd, timeout=rng.choice([-1, 20]), cwd=cwd, env=env, dimensions=dims, echo=echo, ignore_sighup=ign, encoding=enc_)
+                    m_ = re.search(r'<<<(.*)>>>', text if isinstance(text, str) else text.decode('utf-8', 'replace'))
+                    info = json.loads(m_.group(1)) if m_ else None
+                    p = None
                 else:
                     p = popen_spawn.PopenSpawn([common.PY, PROBE] + args, cwd=cwd, env=env, encoding=enc_, timeout=20)
-                info = read_probe(p)
-                if mode != 'popen':
-                    p.close()
-                else:
-                    p.wait()
+                if p is not None:
+                    info = read_probe(p)
+                    if mode in ('popen', 'popen_str'):
+                        p.wait()
+                    else:
+                        p.close()
             except Exception as e:
                 launch_exc = repr(e)[:300]
             sigs.add((mode, cwd is None, env is None, dims, echo, ign, pre))
@@ -312,7 +329,7 @@ def stage_probe(ctx, stats):
                     problems.append('env %r != %r' % (info['env'], envvals))
                 if env is None and info['env'] != {k: v for k, v in os.environ.items() if k.startswith('VPROBE_')}:
                     problems.append('environment not inherited')
-                if mode != 'popen':
+                if mode not in ('popen', 'popen_str'):
                     if info.get('winsize') != list(dims or (24, 80)):
                         problems.append('winsize %r != %r' % (info.get('winsize'), dims or (24, 80)))
                     if info.get('echo') != echo:
